@@ -604,7 +604,7 @@ func (s *Service) handleSuccessfulResponse(ctx context.Context, w http.ResponseW
 
 	// stats update
 	duration := time.Since(stats.StartTime)
-	s.RecordSuccess(endpoint, duration.Milliseconds(), int64(bytesWritten))
+	s.RecordResponse(ctx, endpoint, resp.StatusCode, duration, int64(bytesWritten))
 
 	stats.EndTime = time.Now()
 	stats.Latency = duration.Milliseconds()
